@@ -111,3 +111,48 @@ package ed25519
 //@   ensures bytesOf(result[0:32]) == encpt(mulB(nonce(privateKey, f, bytesOf(c), len(c), bytesOf(message))))
 //@   ensures le(result[32:64]) < L
 //@   ensures cong(le(result[32:64]), nonce(privateKey, f, bytesOf(c), len(c), bytesOf(message)) + hchal(f, bytesOf(c), len(c), bytesOf(result[0:32]), bytesOf(privateKey[32:64]), bytesOf(message)) * sec_a(privateKey), L)
+
+//@ func Sign(privateKey, message)
+//@   panics len(privateKey) != 64
+//@   modifies nothing
+//@   ensures len(result) == 64 && fresh(result)
+//@   ensures bytesOf(result[0:32]) == encpt(mulB(nonce(privateKey, fPure, bnil(), 0, bytesOf(message))))
+//@   ensures le(result[32:64]) < L
+//@   ensures cong(le(result[32:64]), nonce(privateKey, fPure, bnil(), 0, bytesOf(message)) + hchal(fPure, bnil(), 0, bytesOf(result[0:32]), bytesOf(privateKey[32:64]), bytesOf(message)) * sec_a(privateKey), L)
+
+// crypto.Signer entry point: the variant is selected by the dynamic type of opts, its Hash and its
+// Context; the entropy argument is never used.
+//@ func (PrivateKey).Sign(priv, rand, message, opts)
+//@   requires opts != nil
+//@   panics maybe
+//@   modifies nothing
+//@   ensures entropyReads() == 0
+//@   ensures result1 == nil ==> (len(result0) == 64 && fresh(result0) && le(result0[32:64]) < L)
+
+//@ func GenerateKey(rand)
+//@   modifies nothing
+//@   ensures entropyReads() == 1 && entropyRead(0) == 32
+//@   ensures result2 != nil ==> (result0 == nil && result1 == nil)
+//@   ensures result2 == nil ==> (len(result0) == 32 && len(result1) == 64 && fresh(result0) && fresh(result1) && bytesOf(result0[0:32]) == bytesOf(result1[32:64]))
+//@   ensures result2 == nil ==> bytesOf(result1[32:64]) == encpt(mulB(sec_a(result1) % L))
+
+//@ func (PrivateKey).Seed(priv)
+//@   requires len(priv) >= 32
+//@   modifies nothing
+//@   ensures len(result) == 32 && fresh(result) && bytesOf(result[0:32]) == bytesOf(priv[0:32])
+
+//@ func (PrivateKey).Public(priv)
+//@   requires len(priv) == 64
+//@   modifies nothing
+//@   ensures len(unwrap(result)) == 32 && fresh(result) && bytesOf(unwrap(result)[0:32]) == bytesOf(priv[32:64])
+
+// Equal is true exactly for byte-identical keys of the same type
+//@ func (PrivateKey).Equal(priv, x)
+//@   modifies nothing
+//@   ensures istype(x) ==> result == (len(priv) == len(astype(x)) && bytesOf(priv) == bytesOf(astype(x)))
+//@   ensures !istype(x) ==> result == false
+
+//@ func (PublicKey).Equal(pub, x)
+//@   modifies nothing
+//@   ensures istype(x) ==> result == (len(pub) == len(astype(x)) && bytesOf(pub) == bytesOf(astype(x)))
+//@   ensures !istype(x) ==> result == false
